@@ -6,5 +6,6 @@ CONSTANTS
   Mode = "write"
   Pre = {}
   MaxWrites = 6
+  Suspend = TRUE
 INVARIANTS Refines AtMostKOpen OpenNotEvicted CompleteAndOrdered
 CHECK_DEADLOCK TRUE
